@@ -60,6 +60,9 @@ CLAIMED = {
  "C14": dict(cat="exploration", tech="schedule exploration (iterative deviation bounding) over the iteration order of every map range, owned through a type-directed build-time -overlay rewrite", ref="DESIGN.md §4, §5 C14",
    text="every map range / maps.Keys call of the module is rewritten (overlay, /repo untouched) to take its key order from a scheduler; for each history of the catalogue (2-3 bidder settlements of fixed and batch auctions, an extended round, two auctions settling in one block, listener registration; thorough: 4 bidders) every schedule with <=2 (thorough <=3) ranges off the canonical order, each trying all permutations, must give byte-identical ordered events, store dump and balances; canonical digests are compared across worker processes",
    note=TRUST + "; a new map range is picked up automatically, a form the rewriter cannot own fails the check loudly; containers inside the SDK are out of scope"),
+ "C20": dict(cat="exploration", tech="exhaustive walk of the built binary's command tree + resolution of every AutoCLI binding against the registered descriptors + sentinel round-trip of every tx argument (+ one-node chain in the thorough tier)", ref="DESIGN.md §5 C20",
+   text="the default node binary is built from the working tree and must start; every command option is resolved against the protobuf descriptors the way AutoCLI does; every node of `query|tx fundraising` answers --help; every custom-bound tx leaf is generated offline with one sentinel per argument and the JSON compared field by field; every query RPC's real answer is rendered with AutoCLI's encoder; thorough: a loopback one-node chain from an explorer-exported genesis produces blocks and answers every query leaf",
+   note=TRUST + "; 18 listed known findings: decimal arguments are sent x10^-18 by client/v2 v2.0.0-beta.4 (8 command/argument pairs) and five query commands cannot display answers that contain a singular Coin annotated legacy_coins (needs proto regeneration, impossible offline); UpdateParams and AddAllowedBidder are documented exemptions from reachability"),
  "C07": dict(cat="model_checking", tech=MC + " + exhaustive single-fault enumeration over the bank calls of every distinct effective block",
    ref="DESIGN.md §5 C07",
    text="(a) every explored state of the lifecycle and multi-auction scenarios x every later block instant: the module's registered block hook returns nil and does not panic; (b) for every distinct (state, block time) whose block calls the bank, each call index in turn returns an injected error and the hook must return an error wrapping it",
